@@ -50,7 +50,7 @@ def run(ck):
 
 def record(ck):
     nfiles = ck.pick(16, 32)
-    n = ck.pick(5000, 19000)
+    n = ck.pick(4000, 19000)
     files = [os.path.join(ck.work, 'mem_%d.ndjson' % i) for i in range(nfiles)]
     ck.run_jobs(['%s --seed %d --n %d --out %s' % (ck.bin('mem_rec'), ck.seed * 1000 + i, n, f)
                  for i, f in enumerate(files)])
